@@ -381,6 +381,14 @@ fn main() {
         let res = std::panic::catch_unwind(std::panic::AssertUnwindSafe(|| dispatch(cmd, args, &mut out)));
         let us = t0.elapsed().as_micros();
         let (mx, total) = alloc::read();
+        // purity: the same command once more must give the same answer
+        if res.is_ok() && matches!(cmd, "sps" | "pps" | "slice" | "sei" | "bp" | "pt" | "t35" | "avcc" | "pipeline") {
+            let mut out2: Vec<String> = Vec::new();
+            let res2 = std::panic::catch_unwind(std::panic::AssertUnwindSafe(|| dispatch(cmd, args, &mut out2)));
+            if res2.is_err() || out2 != out {
+                out.push("pure=0".into());
+            }
+        }
         let p = if res.is_err() { " panic=1" } else { "" };
         writeln!(w, "{} {}{} alloc={}/{} us={}", id, out.join(" "), p, mx, total, us).unwrap();
     }
